@@ -150,6 +150,48 @@ func runC12(r *Run) {
 			}
 			r.Count("R12 writes of the DAO total outside the keeper", nFW)
 		}
+		r.Rule("R13", "OWN.ledger-entry-points: the two operations that change shares — Fund (a bank deposit paired with a credit of the sender's share and the total) and TransferOwnership — are called, in non-test Haqq code, only by the DAO message server and by the tabled v1.7.6 upgrade step (which funds the DAO on behalf of whitelisted accounts out of their own balances). Another caller — an upgrade step that moves an old module account's coins in 'through Fund' — credits a share to an address nobody controls for coins that already back existing shares: total and shares double while the module account holds the coins once")
+		{
+			allowedEntry := map[string]map[string]string{
+				"Fund": {
+					"(x/ucdao/keeper.msgServer).Fund":     "the message",
+					"app/upgrades/v1.7.6.TurnOnDAO":       "upgrade step: funds on behalf of whitelisted accounts from their own balances",
+					"app/upgrades/v1.7.6.liquidateAndFund": "upgrade step helper",
+				},
+				"TransferOwnership": {
+					"(x/ucdao/keeper.msgServer).TransferOwnership":           "the message",
+					"(x/ucdao/keeper.msgServer).TransferOwnershipWithRatio":  "the message",
+					"(x/ucdao/keeper.msgServer).TransferOwnershipWithAmount": "the message",
+				},
+			}
+			nE := 0
+			for _, fn := range r.P.Funcs {
+				if isTestSupport(r.P, fn) || fn.Synthetic != "" || !isHaqqPath(fnPkgPath(fn)) || strings.Contains(fnPkgPath(fn), "/testutil") || isGeneratedFile(r.P.FileOf(fnPos(outermost(fn)))) {
+					continue
+				}
+				owner := fnID(outermost(fn))
+				idx := 0
+				eachCall(fn, func(ci CallInfo) {
+					tab, ok := allowedEntry[ci.Name]
+					if !ok {
+						return
+					}
+					// the DAO keeper's method: receiver type from x/ucdao/keeper (concrete or the Keeper interface)
+					if !strings.Contains(ci.PkgPath, "x/ucdao/keeper") {
+						return
+					}
+					if ci.Recv == "msgServer" || ci.Recv == "MsgServer" {
+						return
+					}
+					nE++
+					idx++
+					why, ok := tab[owner]
+					r.Check(ok, "R13", fmt.Sprintf("%s#calls-%s-%d", owner, ci.Name, idx), r.P.Pos(instrPos(ci.Instr)), "tabled caller: "+why,
+						"the DAO ledger's "+ci.Name+" is called from "+owner+", which is neither the message server nor a tabled upgrade step: shares are created or moved outside the paths whose pairing (bank deposit ↔ share ↔ total) the other rules establish")
+				})
+			}
+			r.Floor("R13", "calls of the DAO ledger's entry points", nE, 4)
+		}
 		r.Rule("R10", "SHAPE.index-decided-by-balances-only: setHoldersIndex lists an address exactly when its DAO balances are not all zero — every branch condition in it is built from GetAccountBalances(addr).IsZero() and holdersStore.Has(key) alone; a condition that consults anything else (the bank keeper's blocked addresses, account types) makes the index differ from the set of non-zero accounts")
 		if sh, ok := r.P.FnOK("(x/ucdao/keeper.BaseKeeper).setHoldersIndex"); ok {
 			allowed := map[string]bool{"GetAccountBalances": true, "IsZero": true, "Has": true, "MustLengthPrefix": true, "getHoldersStore": true, "KVStore": true, "NewStore": true}
